@@ -108,4 +108,277 @@ theorem invA_init (cfg : Config) (hn : 0 < cfg.n) : InvA cfg.n (init cfg) := by
     omega
   · simp [init, cntD_replicate_init, SPh.sd]
 
+/-! ### shape of the steps -/
+
+theorem mem_next {cfg : Config} {s s' : St} {l : Lbl} (h : (l, s') ∈ (sys cfg).next s) :
+    (∃ j, j < s.ch.length ∧ (l, s') ∈ stepChild cfg s j) ∨ (l, s') ∈ stepStop cfg s := by
+  simp only [sys, List.mem_append, List.mem_flatMap, List.mem_range] at h
+  rcases h with ⟨j, hj, h⟩ | h
+  · exact .inl ⟨j, hj, h⟩
+  · exact .inr h
+
+theorem mem_takeSteps {s s' : St} {t : Nat} {l : Lbl} (h : (l, s') ∈ takeSteps s t) :
+    ∃ k c, s.ch[k]? = some c ∧ c.cbst = 0 ∧
+      s' = { setCh s k { c with cbst := 1, notified := true } with cur := some k } := by
+  simp only [takeSteps, List.mem_filterMap, List.mem_range] at h
+  obtain ⟨k, _, h⟩ := h
+  cases hc : s.ch[k]? with
+  | none => simp [hc] at h
+  | some c =>
+    simp only [hc] at h
+    by_cases h0 : c.cbst = 0
+    · simp only [h0, if_true, Option.some.injEq, Prod.mk.injEq] at h
+      exact ⟨k, c, hc, h0, h.2.symm⟩
+    · simp [h0] at h
+
+/-- the three things the body of a leaf's stop callback can do -/
+inductive CbBody (cfg : Config) (s : St) (t k : Nat) (s' : St) : Prop
+  | claim (c : Child) (hc : s.ch[k]? = some c) (h1 : c.cbst = 1) (hr : c.ph = .run)
+      (e : s' = setCh s k { c with ph := .preX, exec := t, out := .done, cbst := 2 })
+  | ret (c : Child) (hc : s.ch[k]? = some c) (h1 : c.cbst = 1)
+      (e : s' = { setCh s k { c with cbst := 2 } with cur := none })
+  | retNested (c : Child) (hc : s.ch[k]? = some c) (h1 : c.cbst ≠ 1) (hf : c.ph = .fin)
+      (e : s' = { s with cur := none })
+
+theorem mem_cbBodySteps {cfg : Config} {s s' : St} {t k : Nat} {l : Lbl}
+    (h : (l, s') ∈ cbBodySteps cfg s t k) : CbBody cfg s t k s' := by
+  unfold cbBodySteps at h
+  cases hc : s.ch[k]? with
+  | none => simp [hc] at h
+  | some c =>
+    simp only [hc] at h
+    by_cases h1 : c.cbst = 1
+    · simp only [h1, if_true] at h
+      by_cases h2 : cfg.inl.getD k false = true ∧ c.ph = .run
+      · simp only [h2, and_self, if_true, List.mem_singleton, Prod.mk.injEq] at h
+        exact .claim c hc h1 h2.2 h.2
+      · rw [if_neg h2] at h; simp only [List.mem_singleton, Prod.mk.injEq] at h
+        exact .ret c hc h1 h.2
+    · rw [if_neg h1] at h
+      by_cases h3 : c.ph = .fin
+      · rw [if_pos h3] at h; simp only [List.mem_singleton, Prod.mk.injEq] at h
+        exact .retNested c hc h1 h3 h.2
+      · simp [h3] at h
+
+/-- thread `t` is inside `stopSource_.request_stop()` as the first requester -/
+def Notifier (cfg : Config) (s : St) (t : Nat) : Prop :=
+  (∃ (j : Nat) (c : Child), s.ch[j]? = some c ∧ c.ph = CPh.notifying ∧ c.exec = t) ∨
+    (s.stopPh = SPh.notifying ∧ t = stopTid cfg)
+
+/-- every transition of the model in explicit form (`step_of_mem_next` shows the list is complete) -/
+inductive Step (cfg : Config) (s : St) : St → Prop
+  -- completion of child j
+  | cClaim (j : Nat) (c : Child) (o : Out) (hc : s.ch[j]? = some c) (hp : c.ph = .run)
+      (ho : cfg.outs.getD j none = some o) :
+      Step cfg s (setCh s j { c with ph := .claimed, exec := j + 1, out := o })
+  | cDereg (j : Nat) (c : Child) (hc : s.ch[j]? = some c) (hp : c.ph = .claimed) (hcb : c.cbst ≠ 1) :
+      Step cfg s (setCh s j { c with ph := .preX, cbst := 2 })
+  | cNoX (j : Nat) (c : Child) (hc : s.ch[j]? = some c) (hp : c.ph = .preX)
+      (hv : c.out = .value ∨ s.doe = true) :
+      Step cfg s (setCh (touch s) j { c with ph := .preDec })
+  | cXwin (j : Nat) (c : Child) (hc : s.ch[j]? = some c) (hp : c.ph = .preX)
+      (hv : c.out ≠ .value) (hd : s.doe = false) :
+      Step cfg s (setCh { touch s with doe := true, err := if c.out = .error then some j else none,
+                                       firstFail := some j } j { c with ph := .preStop })
+  | cStopAlready (j : Nat) (c : Child) (hc : s.ch[j]? = some c) (hp : c.ph = .preStop)
+      (ho : s.ownStop = true) :
+      Step cfg s (setCh (touch s) j { c with ph := .preDec })
+  | cStopFirst (j : Nat) (c : Child) (hc : s.ch[j]? = some c) (hp : c.ph = .preStop)
+      (ho : s.ownStop = false) :
+      Step cfg s (setCh { touch s with ownStop := true } j { c with ph := .notifying })
+  | cExit (j : Nat) (c : Child) (hc : s.ch[j]? = some c) (hp : c.ph = .notifying)
+      (hcur : s.cur = none) (hg : allGone s = true) :
+      Step cfg s (setCh { touch s with notifyDone := true } j { c with ph := .preDec })
+  | cDecLast (j : Nat) (c : Child) (hc : s.ch[j]? = some c) (hp : c.ph = .preDec)
+      (hr : s.refCount = 1) :
+      Step cfg s (setCh { touch s with refCount := 0, zeroed := true } j { c with ph := .dlv1 })
+  | cDec (j : Nat) (c : Child) (hc : s.ch[j]? = some c) (hp : c.ph = .preDec)
+      (hr : s.refCount ≠ 1) :
+      Step cfg s (setCh { touch s with refCount := s.refCount - 1 } j { c with ph := .fin })
+  | cDestruct (j : Nat) (c : Child) (hc : s.ch[j]? = some c) (hp : c.ph = .dlv1)
+      (hb : ¬(s.cbRunning = true ∧ c.exec ≠ stopTid cfg)) :
+      Step cfg s (setCh { touch s with cbReg := false } j { c with ph := .dlv2 })
+  | cSignal (j : Nat) (c : Child) (hc : s.ch[j]? = some c) (hp : c.ph = .dlv2) :
+      Step cfg s (setCh (signalSt cfg s c.exec) j { c with ph := .fin })
+  -- the first requester of the operation's own stop source (a child or the stop callback)
+  | nTake (t k : Nat) (ck : Child) (hn : Notifier cfg s t) (hcur : s.cur = none)
+      (hk : s.ch[k]? = some ck) (h0 : ck.cbst = 0) :
+      Step cfg s { setCh s k { ck with cbst := 1, notified := true } with cur := some k }
+  | nClaim (t k : Nat) (ck : Child) (hn : Notifier cfg s t) (hcur : s.cur = some k)
+      (hk : s.ch[k]? = some ck) (h1 : ck.cbst = 1) (hr : ck.ph = .run) :
+      Step cfg s (setCh s k { ck with ph := .preX, exec := t, out := .done, cbst := 2 })
+  | nRet (t k : Nat) (ck : Child) (hn : Notifier cfg s t) (hcur : s.cur = some k)
+      (hk : s.ch[k]? = some ck) (h1 : ck.cbst = 1) :
+      Step cfg s { setCh s k { ck with cbst := 2 } with cur := none }
+  | nRetNested (t k : Nat) (ck : Child) (hn : Notifier cfg s t) (hcur : s.cur = some k)
+      (hk : s.ch[k]? = some ck) (h1 : ck.cbst ≠ 1) (hf : ck.ph = .fin) :
+      Step cfg s { s with cur := none }
+  -- the external stop thread
+  | sBegin (hp : s.stopPh = .idle) : Step cfg s { s with stopPh := .begun }
+  | sCasCb (hp : s.stopPh = .begun) (hr : s.cbReg = true) :
+      Step cfg s { s with recvStop := true, cbRunning := true, stopPh := .cbEnter }
+  | sCasNo (hp : s.stopPh = .begun) (hr : s.cbReg = false) :
+      Step cfg s { s with recvStop := true, stopPh := .ret }
+  | sAddLate (hp : s.stopPh = .cbEnter) (hr : s.refCount = 0) :
+      Step cfg s { touch s with refCount := 1, stopPh := .cbRet }
+  | sAdd (hp : s.stopPh = .cbEnter) (hr : s.refCount ≠ 0) :
+      Step cfg s { touch s with refCount := s.refCount + 1, stopPh := .preOwnStop }
+  | sStopAlready (hp : s.stopPh = .preOwnStop) (ho : s.ownStop = true) :
+      Step cfg s { touch s with stopPh := .preDec }
+  | sStopFirst (hp : s.stopPh = .preOwnStop) (ho : s.ownStop = false) :
+      Step cfg s { touch s with ownStop := true, stopPh := .notifying }
+  | sExit (hp : s.stopPh = .notifying) (hcur : s.cur = none) (hg : allGone s = true) :
+      Step cfg s { touch s with notifyDone := true, stopPh := .preDec }
+  | sDecLast (hp : s.stopPh = .preDec) (hr : s.refCount = 1) :
+      Step cfg s { touch s with refCount := 0, zeroed := true, stopPh := .dlv1 }
+  | sDec (hp : s.stopPh = .preDec) (hr : s.refCount ≠ 1) :
+      Step cfg s { touch s with refCount := s.refCount - 1, stopPh := .cbRet }
+  | sDestruct (hp : s.stopPh = .dlv1) : Step cfg s { touch s with cbReg := false, stopPh := .dlv2 }
+  | sSignal (hp : s.stopPh = .dlv2) :
+      Step cfg s { signalSt cfg s (stopTid cfg) with stopPh := .cbRet }
+  | sCbRet (hp : s.stopPh = .cbRet) : Step cfg s { s with cbRunning := false, stopPh := .ret }
+  | sRet (hp : s.stopPh = .ret) : Step cfg s { s with stopPh := .fin }
+
+theorem step_of_cbBody {cfg : Config} {s s' : St} {t k : Nat} (hn : Notifier cfg s t)
+    (hcur : s.cur = some k) (h : CbBody cfg s t k s') : Step cfg s s' := by
+  cases h with
+  | claim c hc h1 hr e => exact e ▸ .nClaim t k c hn hcur hc h1 hr
+  | ret c hc h1 e => exact e ▸ .nRet t k c hn hcur hc h1
+  | retNested c hc h1 hf e => exact e ▸ .nRetNested t k c hn hcur hc h1 hf
+
+theorem step_of_stepChild {cfg : Config} {s s' : St} {l : Lbl} {j : Nat}
+    (h : (l, s') ∈ stepChild cfg s j) : Step cfg s s' := by
+  unfold stepChild at h
+  cases hc : s.ch[j]? with
+  | none => simp [hc] at h
+  | some c =>
+    simp only [hc] at h
+    cases hp : c.ph <;> simp only [hp] at h
+    case run =>
+      split at h
+      · simp at h
+      · rename_i o ho
+        simp only [List.mem_singleton, Prod.mk.injEq] at h
+        exact h.2 ▸ .cClaim j c o hc hp (by rw [List.getD_eq_getElem?_getD]; exact ho)
+    case claimed =>
+      by_cases h1 : c.cbst = 1
+      · simp [h1] at h
+      · rw [if_neg h1] at h; simp only [List.mem_singleton, Prod.mk.injEq] at h
+        exact h.2 ▸ .cDereg j c hc hp h1
+    case preX =>
+      by_cases hv : c.out = .value
+      · rw [if_pos hv] at h; simp only [List.mem_singleton, Prod.mk.injEq] at h
+        exact h.2 ▸ .cNoX j c hc hp (.inl hv)
+      · rw [if_neg hv] at h
+        by_cases hd : s.doe = true
+        · rw [if_pos hd] at h; simp only [List.mem_singleton, Prod.mk.injEq] at h
+          exact h.2 ▸ .cNoX j c hc hp (.inr hd)
+        · rw [if_neg hd] at h; simp only [List.mem_singleton, Prod.mk.injEq] at h
+          exact h.2 ▸ .cXwin j c hc hp hv (by simpa using hd)
+    case preStop =>
+      by_cases ho : s.ownStop = true
+      · rw [if_pos ho] at h; simp only [List.mem_singleton, Prod.mk.injEq] at h
+        exact h.2 ▸ .cStopAlready j c hc hp ho
+      · rw [if_neg ho] at h; simp only [List.mem_singleton, Prod.mk.injEq] at h
+        exact h.2 ▸ .cStopFirst j c hc hp (by simpa using ho)
+    case notifying =>
+      have hn : Notifier cfg s c.exec := by unfold Notifier; exact Or.inl ⟨j, c, hc, hp, rfl⟩
+      cases hcur : s.cur with
+      | some k =>
+        simp only [hcur] at h
+        exact step_of_cbBody hn hcur (mem_cbBodySteps h)
+      | none =>
+        simp only [hcur] at h
+        by_cases hg : allGone s = true
+        · rw [if_pos hg] at h; simp only [List.mem_singleton, Prod.mk.injEq] at h
+          exact h.2 ▸ .cExit j c hc hp hcur hg
+        · rw [if_neg hg] at h
+          obtain ⟨k, ck, hk, h0, e⟩ := mem_takeSteps h
+          exact e ▸ .nTake c.exec k ck hn hcur hk h0
+    case preDec =>
+      by_cases hr : s.refCount = 1
+      · rw [if_pos hr] at h; simp only [List.mem_singleton, Prod.mk.injEq] at h
+        have := Step.cDecLast (cfg := cfg) j c hc hp hr
+        exact h.2 ▸ this
+      · rw [if_neg hr] at h; simp only [List.mem_singleton, Prod.mk.injEq] at h
+        exact h.2 ▸ .cDec j c hc hp hr
+    case dlv1 =>
+      by_cases hb : s.cbRunning = true ∧ c.exec ≠ stopTid cfg
+      · simp [hb] at h
+      · rw [if_neg hb] at h; simp only [List.mem_singleton, Prod.mk.injEq] at h
+        exact h.2 ▸ .cDestruct j c hc hp hb
+    case dlv2 =>
+      simp only [List.mem_singleton, Prod.mk.injEq] at h
+      exact h.2 ▸ .cSignal j c hc hp
+    case fin => simp at h
+
+theorem step_of_stepStop {cfg : Config} {s s' : St} {l : Lbl}
+    (h : (l, s') ∈ stepStop cfg s) : Step cfg s s' := by
+  unfold stepStop at h
+  cases hp : s.stopPh <;> simp only [hp] at h
+  case idle =>
+    by_cases he : cfg.extStop = true
+    · rw [if_pos he] at h; simp only [List.mem_singleton, Prod.mk.injEq] at h
+      exact h.2 ▸ .sBegin hp
+    · simp [he] at h
+  case begun =>
+    by_cases hr : s.cbReg = true
+    · rw [if_pos hr] at h; simp only [List.mem_singleton, Prod.mk.injEq] at h
+      exact h.2 ▸ .sCasCb hp hr
+    · rw [if_neg hr] at h; simp only [List.mem_singleton, Prod.mk.injEq] at h
+      exact h.2 ▸ .sCasNo hp (by simpa using hr)
+  case cbEnter =>
+    by_cases hr : s.refCount = 0
+    · rw [if_pos hr] at h; simp only [List.mem_singleton, Prod.mk.injEq] at h
+      have := Step.sAddLate (cfg := cfg) hp hr
+      exact h.2 ▸ this
+    · rw [if_neg hr] at h; simp only [List.mem_singleton, Prod.mk.injEq] at h
+      exact h.2 ▸ .sAdd hp hr
+  case preOwnStop =>
+    by_cases ho : s.ownStop = true
+    · rw [if_pos ho] at h; simp only [List.mem_singleton, Prod.mk.injEq] at h
+      exact h.2 ▸ .sStopAlready hp ho
+    · rw [if_neg ho] at h; simp only [List.mem_singleton, Prod.mk.injEq] at h
+      exact h.2 ▸ .sStopFirst hp (by simpa using ho)
+  case notifying =>
+    have hn : Notifier cfg s (stopTid cfg) := by unfold Notifier; exact Or.inr ⟨hp, rfl⟩
+    cases hcur : s.cur with
+    | some k =>
+      simp only [hcur] at h
+      exact step_of_cbBody hn hcur (mem_cbBodySteps h)
+    | none =>
+      simp only [hcur] at h
+      by_cases hg : allGone s = true
+      · rw [if_pos hg] at h; simp only [List.mem_singleton, Prod.mk.injEq] at h
+        exact h.2 ▸ .sExit hp hcur hg
+      · rw [if_neg hg] at h
+        obtain ⟨k, ck, hk, h0, e⟩ := mem_takeSteps h
+        exact e ▸ .nTake (stopTid cfg) k ck hn hcur hk h0
+  case preDec =>
+    by_cases hr : s.refCount = 1
+    · rw [if_pos hr] at h; simp only [List.mem_singleton, Prod.mk.injEq] at h
+      have := Step.sDecLast (cfg := cfg) hp hr
+      exact h.2 ▸ this
+    · rw [if_neg hr] at h; simp only [List.mem_singleton, Prod.mk.injEq] at h
+      exact h.2 ▸ .sDec hp hr
+  case dlv1 =>
+    simp only [List.mem_singleton, Prod.mk.injEq] at h
+    exact h.2 ▸ .sDestruct hp
+  case dlv2 =>
+    simp only [List.mem_singleton, Prod.mk.injEq] at h
+    exact h.2 ▸ .sSignal hp
+  case cbRet =>
+    simp only [List.mem_singleton, Prod.mk.injEq] at h
+    exact h.2 ▸ .sCbRet hp
+  case ret =>
+    simp only [List.mem_singleton, Prod.mk.injEq] at h
+    exact h.2 ▸ .sRet hp
+  case fin => simp at h
+
+theorem step_of_mem_next {cfg : Config} {s s' : St} {l : Lbl} (h : (l, s') ∈ (sys cfg).next s) :
+    Step cfg s s' := by
+  rcases mem_next h with ⟨j, _, h⟩ | h
+  · exact step_of_stepChild h
+  · exact step_of_stepStop h
+
 end Unifex.Proto.WhenAll
